@@ -8,6 +8,7 @@ qubit j).  Model functions are the ones `ofv-driver` executes (`OFV.Model.C04`).
 import OFV.Model.C04
 import OFV.Spec.C04
 import OFV.Proofs.C04Term
+import OFV.Proofs.C04Sum
 
 namespace OFV.C04
 open OFV OFV.Spec OFV.Model OFV.Model.C04 OFV.Sem
@@ -99,6 +100,47 @@ theorem jw_majorana_term_exact (t : List Nat) (c : GQ) (m x : Nat) :
   simp only [den_mk_const]
   split <;> simp [mul_comm]
 
+/-- `SymbolicOperator.__iadd__` denotes the sum on every exact run (`iaddOk`: no non-zero value was
+deleted by the `|v| < EQ_TOLERANCE` test) — any algebra, any two dictionaries. -/
+theorem jw_add_sound (alg : Alg) (tol : Rat) (a b : Model.Op) (h : iaddOk tol a b = true) (s x : St) :
+    GV.coeff (applyOp alg (iadd tol a b) s) x = GV.coeff (applyOp alg a s) x + GV.coeff (applyOp alg b s) x :=
+  den_iadd alg tol a b s x h
+
+/-- **`jordan_wigner(FermionOperator)` is exact**: for every FermionOperator `A` (any number of terms,
+any lengths, any modes) whose run is in the exact regime (`jwFermionOk`, evaluated by the driver on every
+generated input), `⟨x| jw(A) |m⟩ = ⟨x| A |m⟩` for all basis states.
+Full statement without the regime hypothesis is false only through the tolerance deletion of `+=`. -/
+theorem jw_exact (tol : Rat) (htol : tol * tol ≤ 1 / 4) (A : Model.Op) (hA : ∀ tc ∈ A, ∀ f ∈ tc.1, f.2 ≤ 1)
+    (hok : jwFermionOk tol A = true) (m x : Nat) :
+    GV.coeff (applyOp .qubit (jwFermion tol A) [m]) [x] = GV.coeff (applyOp .fermion A [m]) [x] := by
+  change den .qubit _ _ _ = den .fermion _ _ _
+  have e : jwFermion tol A = (A.map fun tc => jwTerm tol tc.1 tc.2).foldl (fun acc img => iadd tol acc img) [] := by
+    unfold jwFermion; rw [List.foldl_map]
+  rw [e, den_sum_ok .qubit tol _ [m] [x] hok, den_eq_sum, List.map_map]
+  congr 1
+  apply List.map_congr_left
+  intro tc htc
+  have := jw_term_exact tol htol tc.1 (hA tc htc) tc.2 m x
+  change den .qubit _ _ _ = den .fermion _ _ _ at this
+  simp only [Function.comp]
+  rw [this, den_cons, den_nil, add_zero]
+
+/-- **`jordan_wigner(MajoranaOperator)` is exact** on every exact run, for all MajoranaOperators. -/
+theorem jw_majorana_exact (tol : Rat) (A : Model.MOp) (hok : jwMajoranaOk tol A = true) (m x : Nat) :
+    GV.coeff (applyOp .qubit (jwMajorana tol A) [m]) [x]
+      = GV.coeff (applyOp .majorana (A.map fun tc => (tc.1.map fun i => (i, 0), tc.2)) [m]) [x] := by
+  change den .qubit _ _ _ = den .majorana _ _ _
+  have e : jwMajorana tol A = (A.map fun tc => jwMajTerm tc.1 tc.2).foldl (fun acc img => iadd tol acc img) [] := by
+    unfold jwMajorana; rw [List.foldl_map]
+  rw [e, den_sum_ok .qubit tol _ [m] [x] hok, den_eq_sum, List.map_map, List.map_map]
+  congr 1
+  apply List.map_congr_left
+  intro tc _
+  have := jw_majorana_term_exact tc.1 tc.2 m x
+  change den .qubit _ _ _ = den .majorana _ _ _ at this
+  simp only [Function.comp]
+  rw [this, den_cons, den_nil, add_zero]
+
 /-! ### non-vacuity -/
 
 /-- the threshold the driver runs with satisfies the hypothesis of the theorems -/
@@ -110,5 +152,11 @@ example : ∀ f ∈ [(3, 1), (0, 0), (3, 0), (1, 1)], f.2 ≤ 1 := by decide
 
 /-- a Pauli string with repeated qubits out of order satisfies the hypothesis of `jw_simplify_sound` -/
 example : ∀ f ∈ [(2, 1), (0, 3), (2, 2), (0, 3)], f.2 < 4 := by decide
+
+/-- the exact-regime hypothesis holds for a concrete operator with cancelling and repeated terms
+(`2 a†_1 a_0 - ½ a_0 a†_1 + i a†_2`), evaluated by the kernel on the Model with the live tolerance -/
+example : jwFermionOk Generated.eqTolerance
+    [([(1, 1), (0, 0)], ⟨2, 0⟩), ([(0, 0), (1, 1)], ⟨-(mkRat 1 2), 0⟩), ([(2, 1)], ⟨0, 1⟩)] = true := by
+  decide +kernel
 
 end OFV.C04
